@@ -136,6 +136,21 @@ def generate(ctx):
 
 def judge(ctx):
     impl = ctx.impl
+    # the class is the one defined in Coq: the extracted CmpKey.key_safe_doc (on the decoded document) is asked about
+    # every generated document, and the Python mirror used below for counting and judging must agree with it
+    from .. import core
+    docs = {}
+    for a, b, _ in ctx.pairs:
+        for v in (a, b):
+            docs.setdefault(gen.hexarg(gen.enc(v)), v)
+    keys = sorted(docs)
+    out = core.run_cases(core.DRIVER_BIN, ['k%d key_safe_doc %s' % (i, h) for i, h in enumerate(keys)], ctx.pid + '-class')
+    for i, h in enumerate(keys):
+        want = 'ok =true' if key_safe_doc(docs[h]) else 'ok =false'
+        if out.get('k%d' % i, 'missing') != want:
+            ctx.violate('the judge\'s mirror of key_safe_doc disagrees with the extracted CmpKey.key_safe_doc',
+                        case=gen.vtext(docs[h]), expected_by_model=out.get('k%d' % i, 'missing'), observed=want)
+    ctx.count('documents_classified_by_the_extracted_key_safe_doc', None, len(keys))
     for a, b, ids in ctx.pairs:
         ka, kb, c = [impl.get(i, 'missing') for i in ids]
         if not (ka.startswith('ok ') and kb.startswith('ok ') and c.startswith('ok =')):
